@@ -1,0 +1,47 @@
+//go:build verif
+
+// Machine-checked contracts for package dbdiff (comment-only; read by /verif's govc).
+
+package dbdiff
+
+// ---- C08: a diff entry BORROWS the line it was parsed from ----------------------------------------------------
+// bufio.Scanner hands out a window into its own buffer; the next Scan may overwrite it. Ghost state: scangen
+// counts the Scans, linegen[ref] is the generation in which the memory behind a slice was handed out by
+// Scanner.Bytes (0: memory the scanner never handed out). ParseBytes keeps the argument of the operation as a
+// sub-slice of its input (no copy), so Convert may only run while that line is still the scanner's current one.
+//@ ghostvar scangen int
+//@ ghostvar linegen seq
+//@ extern bufio Scanner.Scan
+//@ updates scangen
+//@ ensures scangen == old(scangen) + 1
+//@ extern bufio Scanner.Bytes
+//@ updates linegen
+//@ ensures linegen == upd(old(linegen), ref(result), scangen)
+//@ extern bufio Scanner.Err
+//@ pure
+//@ extern bufio NewScanner
+//@ pure
+//@ ensures result != nil
+
+//@ func Op.Valid
+//@ pure
+//@ ensures result == (op == AddOp || op == DelOp)
+
+//@ func decodeOp
+//@ pure
+//@ ensures[short] len(line) < 1 ==> err == ErrShortInput
+//@ ensures[op] err == nil ==> len(line) >= 1 && ((line[0] == 43 && op == AddOp) || (line[0] == 45 && op == DelOp))
+//@ ensures[bad] len(line) >= 1 && line[0] != 43 && line[0] != 45 ==> err == ErrBadOp
+
+//@ func Entry.ParseBytes
+//@ modifies d
+//@ requires d != nil
+//@ ensures[op] err == nil ==> len(b) >= 1 && ((b[0] == 43 && d.Op == AddOp) || (b[0] == 45 && d.Op == DelOp))
+//@ ensures[borrow] err == nil ==> ref(d.Bytes) == ref(b) && off(d.Bytes) == off(b) + 1 && len(d.Bytes) == len(b) - 1
+//@ ensures[err] err != nil ==> d.Op == old(d.Op) && d.Bytes == old(d.Bytes)
+
+//@ func Entry.Convert
+//@ trusted
+//@ modifies d
+//@ requires d != nil && (linegen[ref(d.Bytes)] == 0 || linegen[ref(d.Bytes)] == scangen)
+//@ ensures d.Op == old(d.Op)
